@@ -172,6 +172,17 @@ EXTRA = [
     ("mixed_list_literal_into_open_list", 'print "@@RUN@@"\nl: [int...] = [10, "twenty", 30]\nprint l\n'),
     ("mixed_list_literal_returned", 'print "@@RUN@@"\nf = fn() -> [int...] {\n  return [1, 2, "three"]\n}\nprint f()\n'),
     ("mixed_list_literal_argument", 'print "@@RUN@@"\nf = fn(l: [str...]) -> int {\n  return l.len()\n}\nprint f(["a", 2])\n'),
+    ("while_true_break_then_missing_return", 'print "@@RUN@@"\nnm = fn(a: int, b: int) -> int {\n  i = a\n  while true {\n    if i > b {\n      break\n    }\n    return i\n  }\n}\nprint nm(9, 5)\n'),
+    ("while_return_missing_after", 'print "@@RUN@@"\nnm = fn(a: int) -> int {\n  while a > 100 {\n    return 1\n  }\n}\nprint nm(1)\n'),
+    ("from_return_missing_after", 'print "@@RUN@@"\nnm = fn(a: int) -> int {\n  from 0 to a {\n    return 1\n  }\n}\nprint nm(0)\n'),
+    ("else_if_without_else_missing_return", 'print "@@RUN@@"\nnm = fn(a: int) -> int {\n  if a > 1 {\n    return 1\n  } else if a > 0 {\n    return 2\n  }\n}\nprint nm(0)\n'),
+    ("other_class_instance_argument", 'print "@@RUN@@"\nclass Sh {\n  s: int\n  constructor(self, s: int) {\n    self.s = s\n  }\n}\nclass Cv {\n  w: int\n  constructor(self) {\n    self.w = 1\n  }\n}\ng = fn(o: Sh) -> int {\n  return o.s\n}\nprint g(Cv())\n'),
+    ("other_class_instance_for_self_param_in_method", 'print "@@RUN@@"\nclass Sh {\n  s: int\n  constructor(self, s: int) {\n    self.s = s\n  }\n  fn same(self, o: Self) -> bool {\n    return self.s == o.s\n  }\n}\nclass Cv {\n  w: int\n  constructor(self) {\n    self.w = 1\n  }\n  fn go(self) -> bool {\n    q = Sh(3)\n    return q.same(self)\n  }\n}\nc = Cv()\nprint c.go()\n'),
+    ("other_class_instance_for_imported_self_param", None),
+    ("fault_in_else_branch", 'print "@@RUN@@"\nn = 3\nlabel = "x"\nif n > 5 {\n  label = "big"\n} else {\n  label = n * 2\n}\nprint label\n'),
+    ("fault_in_else_if_condition", 'print "@@RUN@@"\nn = 3\nif n > 5 {\n  q = 1\n} else if "medium" - 1 {\n  q = 2\n}\n'),
+    ("fault_in_else_if_body", 'print "@@RUN@@"\nn = 3\nif n > 5 {\n  q = 1\n} else if n > 1 {\n  q = zz_undefined\n} else {\n  q = 3\n}\n'),
+    ("fault_in_nested_else", 'print "@@RUN@@"\nn = 3\nif n > 5 {\n  q = 1\n} else {\n  if n > 1 {\n    q = 2\n  } else {\n    q: int = "s"\n  }\n}\n'),
     ("call_result_of_call_arg_type", 'print "@@RUN@@"\nf = fn(a: str) -> int {\n  return 1\n}\ng = fn(b: int) -> int {\n  return b\n}\nprint f(g(1))\n'),
 ]
 
@@ -179,7 +190,10 @@ EXTRA = [
 def work_extra(item):
     name, src = item
     files = {"main.ms": src}
-    if src is None:
+    if src is None and name == "other_class_instance_for_imported_self_param":
+        files = {"main.ms": 'print "@@RUN@@"\nimport Sh from lib\nclass Cv {\n  w: int\n  constructor(self) {\n    self.w = 1\n  }\n  fn go(self) -> bool {\n    q = Sh(3)\n    return q.same(self)\n  }\n}\nc = Cv()\nprint c.go()\n',
+                 "lib.ms": 'export class Sh {\n  s: int\n  constructor(self, s: int) {\n    self.s = s\n  }\n  fn same(self, o: Self) -> bool {\n    return self.s == o.s\n  }\n}\n'}
+    elif src is None:
         files = {"main.ms": 'print "@@RUN@@"\nimport lib\nprint lib.f("s")\n',
                  "lib.ms": 'export f: fn(int) -> int = fn(a: int) -> int {\n  return a\n}\n'}
     r, _, _ = core.run_program(files, cpu=10)
